@@ -30,9 +30,10 @@ VARIABLES l,        \* next line of the trace
           snk,      \* what reached the sink: segments (see LayoutProps)
           wc,       \* number of Write calls so far
           faultK,   \* sink-fault runs: index of the failing sink call
-          rowsTab   \* the distinct row lists delivered by reader runs of this case (Read events refer to them by id)
+          rowsTab,  \* the distinct row lists delivered by reader runs of this case (Read events refer to them by id)
+          clean     \* every Write so far was parsed without structural problems (offsets can be cross-checked)
 
-vars == <<l, caseId, schema, cols, maxPage, codecN, recs, batches, snk, wc, faultK, rowsTab>>
+vars == <<l, caseId, schema, cols, maxPage, codecN, recs, batches, snk, wc, faultK, rowsTab, clean>>
 
 Trace == ndJsonDeserialize(TraceFile)
 Ev == Trace[l]
@@ -47,14 +48,14 @@ ColPath(c) == LeafPaths(schema)[c]
 Expected == Concat(batches)
 
 Init == /\ l = 1 /\ caseId = "" /\ schema = <<>> /\ cols = <<>> /\ maxPage = 0 /\ codecN = 0
-        /\ recs = <<>> /\ batches = <<>> /\ snk = <<>> /\ wc = 0 /\ faultK = 0 /\ rowsTab = <<>>
+        /\ recs = <<>> /\ batches = <<>> /\ snk = <<>> /\ wc = 0 /\ faultK = 0 /\ rowsTab = <<>> /\ clean = TRUE
 
 \* ---------------------------------------------------------------- Reset
 TReset ==
   /\ More /\ Ev.ev = "Reset"
   /\ caseId' = Ev.case /\ schema' = Ev.schema /\ cols' = Ev.cols
   /\ maxPage' = Ev.max /\ codecN' = Ev.codecn
-  /\ recs' = <<>> /\ batches' = <<>> /\ snk' = <<>> /\ wc' = 0 /\ faultK' = 0 /\ rowsTab' = <<>>
+  /\ recs' = <<>> /\ batches' = <<>> /\ snk' = <<>> /\ wc' = 0 /\ faultK' = 0 /\ rowsTab' = <<>> /\ clean' = TRUE
   /\ l' = l + 1
   \* harness sanity: the driver's column list is the specification's leaf list
   /\ Chk("HARNESS", "ColumnsMatchSchema",
@@ -71,7 +72,7 @@ TNew ==
   /\ Chk("C02", "HeadMagic", Ev.res = "ok" => (Ev.magic /\ Ev.len = 4))
   /\ snk' = IF Ev.len > 0 THEN << Seg("magic", Ev.len, 0, 0, 0, 0, 0) >> ELSE <<>>
   /\ l' = l + 1
-  /\ UNCHANGED <<caseId, schema, cols, maxPage, codecN, recs, batches, wc, faultK, rowsTab>>
+  /\ UNCHANGED <<caseId, schema, cols, maxPage, codecN, recs, batches, wc, faultK, rowsTab, clean>>
 
 \* ---------------------------------------------------------------- Add
 TAdd ==
@@ -79,7 +80,7 @@ TAdd ==
   /\ Chk("C01", "AddDoesNotPanic", Ev.res = "ok")
   /\ recs' = Append(recs, Ev.rec)
   /\ l' = l + 1
-  /\ UNCHANGED <<caseId, schema, cols, maxPage, codecN, batches, snk, wc, faultK, rowsTab>>
+  /\ UNCHANGED <<caseId, schema, cols, maxPage, codecN, batches, snk, wc, faultK, rowsTab, clean>>
 
 \* ---------------------------------------------------------------- Write
 \* entries <<rep, def, tok>> stored in one page (tok = -1 where def < maxdef)
@@ -121,7 +122,7 @@ TWrite ==
   /\ l' = l + 1 /\ wc' = wc + 1 /\ recs' = <<>>
   /\ Chk("C01", "WriteSucceeds", Ev.res = "ok")
   /\ IF Ev.res # "ok"
-     THEN UNCHANGED <<snk, batches>>
+     THEN UNCHANGED <<snk, batches, clean>>
      ELSE
        LET pages == Ev.pages
            full  == ~(\E i \in 1..Len(pages) : ~("reps" \in DOMAIN pages[i])) IN
@@ -144,8 +145,9 @@ TWrite ==
        /\ Chk("C12", "MinMaxAbsentWithoutValues", \A i \in 1..Len(pages) : StatsAbsentWhenEmpty(pages[i]))
        /\ snk' = snk \o (IF Ev.orphan > 0 THEN << Seg("orphan", Ev.orphan, wc + 1, 0, 0, 0, 0) >> ELSE <<>>)
                      \o PageSegs(pages, wc + 1)
+       /\ clean' = (clean /\ Ev.problems = <<>>)
        /\ Chk("HARNESS", "OffsetsAddUp",
-              /\ Sum([i \in 1..Len(snk) |-> snk[i].len]) = Ev.start
+              /\ clean => Sum([i \in 1..Len(snk) |-> snk[i].len]) = Ev.start
               /\ Ev.problems = <<>> =>
                    Ev.start + Ev.orphan + Sum([i \in 1..Len(pages) |-> pages[i].hlen + pages[i].clen]) = Ev.end)
        /\ batches' = IF Len(recs) > 0 THEN Append(batches, recs) ELSE batches
@@ -207,7 +209,7 @@ TClose ==
                       /\ \A k \in 1..Len(f.rgs) : k <= Len(batches) => f.rgs[k].numrows = Len(batches[k]))
        /\ Chk("C06", "FooterRowCount", f.ok => f.numrows = Len(Expected))
        /\ Chk("C06", "RowGroupsWhereWritten", f.ok => FooterTruthfulOn(snk, FooterVal(f), NCols, codecN))
-  /\ UNCHANGED <<caseId, schema, cols, maxPage, codecN, recs, batches, wc, faultK, rowsTab>>
+  /\ UNCHANGED <<caseId, schema, cols, maxPage, codecN, recs, batches, wc, faultK, rowsTab, clean>>
 
 \* ---------------------------------------------------------------- reading back
 RowsOf(e) == IF e.rowsid >= 1 /\ e.rowsid <= Len(rowsTab) THEN rowsTab[e.rowsid] ELSE <<"unknown rows id">>
@@ -238,6 +240,10 @@ TRead ==
             /\ Chk("C04", "ReaderDoesNotPanic", Ev.panic = "")
             /\ Chk("C04", "ReaderAcceptsConformantFile", Ev.panic = "" => (Ev.open = "ok" /\ ~Ev.haserr))
             /\ Chk("C04", "RowsExact", (Ev.panic = "" /\ Ev.open = "ok" /\ ~Ev.haserr) => RoundTrip(Ev))
+       [] Ev.mode = "regen" ->
+            /\ Chk("C15", "ReaderDoesNotPanic", Ev.panic = "")
+            /\ Chk("C15", "RegeneratedReaderReadsTheFile", Ev.panic = "" => (Ev.open = "ok" /\ ~Ev.haserr))
+            /\ Chk("C15", "RowsExact", (Ev.panic = "" /\ Ev.open = "ok" /\ ~Ev.haserr) => RoundTrip(Ev))
        [] Ev.mode = "unsup" ->
             /\ Chk("C18", "NoPanic", Ev.panic = "")
             /\ Chk("C18", "UnsupportedFileRefused", Ev.panic = "" => (Ev.open = "err" \/ Ev.haserr))
@@ -246,7 +252,7 @@ TRead ==
             /\ Chk("C11", "NoPanic", Ev.panic = "")
             /\ Chk("C11", "TruncationRejected", Ev.panic = "" => (Ev.open = "err" \/ Ev.haserr))
        [] OTHER -> TRUE
-  /\ UNCHANGED <<caseId, schema, cols, maxPage, codecN, recs, batches, snk, wc, faultK, rowsTab>>
+  /\ UNCHANGED <<caseId, schema, cols, maxPage, codecN, recs, batches, snk, wc, faultK, rowsTab, clean>>
 
 \* a foreign file: the rows it logically holds become the expectation; the
 \* harness's own striping (used to produce the file) is re-checked against Dremel!Stripe
@@ -257,7 +263,7 @@ TForeign ==
   /\ Chk("HARNESS", "ForeignStriping",
          Len(Ev.entries) = NCols /\ \A c \in 1..NCols : Ev.entries[c] = StripeAll(schema, ColPath(c), Ev.rows))
   /\ batches' = IF Ev.rows = <<>> THEN <<>> ELSE <<Ev.rows>>
-  /\ UNCHANGED <<caseId, schema, cols, maxPage, codecN, recs, snk, wc, faultK, rowsTab>>
+  /\ UNCHANGED <<caseId, schema, cols, maxPage, codecN, recs, snk, wc, faultK, rowsTab, clean>>
 
 \* introspection calls (C16): the library's view of a file versus the independent decode
 ChunkPages(e, k) ==   \* independent pages lying inside the k-th chunk (footer order), by offset
@@ -282,7 +288,7 @@ TIntro ==
            \A k \in 1..Len(Ev.atpage) : Ev.atpage[k].err = "" /\ Ev.atpage[k].hdrs = Ev.atpage[k].want)
   \* the independent walk itself agrees with what the writer was observed to emit
   /\ Chk("HARNESS", "WalkMatchesSink", Len(Ev.ipages) = Cardinality(HdrIdxOf(snk)))
-  /\ UNCHANGED <<caseId, schema, cols, maxPage, codecN, recs, batches, snk, wc, faultK, rowsTab>>
+  /\ UNCHANGED <<caseId, schema, cols, maxPage, codecN, recs, batches, snk, wc, faultK, rowsTab, clean>>
 
 \* schedule replay (C13): instances under a prescribed interleaving versus their solo runs
 TSched ==
@@ -290,43 +296,65 @@ TSched ==
   /\ l' = l + 1
   /\ Chk("HARNESS", "PoolHandsBackLastBuffer", Ev.pooltest)
   /\ Chk("C13", "NonInterference", NonInterferenceOn(Ev.out))
-  /\ UNCHANGED <<caseId, schema, cols, maxPage, codecN, recs, batches, snk, wc, faultK, rowsTab>>
+  /\ UNCHANGED <<caseId, schema, cols, maxPage, codecN, recs, batches, snk, wc, faultK, rowsTab, clean>>
 TStress ==
   /\ More /\ Ev.ev = "Stress"
   /\ l' = l + 1
   /\ Chk("C13", "ConcurrentRunsEqualSoloRuns", Ev.nbad = 0 /\ Ev.runs > 0)
-  /\ UNCHANGED <<caseId, schema, cols, maxPage, codecN, recs, batches, snk, wc, faultK, rowsTab>>
+  /\ UNCHANGED <<caseId, schema, cols, maxPage, codecN, recs, batches, snk, wc, faultK, rowsTab, clean>>
+
+\* the logical rows of a file that is only read in this case (C15)
+TExpect ==
+  /\ More /\ Ev.ev = "Expect"
+  /\ l' = l + 1
+  /\ batches' = IF Ev.rows = <<>> THEN <<>> ELSE <<Ev.rows>>
+  /\ UNCHANGED <<caseId, schema, cols, maxPage, codecN, recs, snk, wc, faultK, rowsTab, clean>>
+\* C15: the struct regenerated from a file has the columns, nesting, optionality and types of the struct that wrote it
+TRegen ==
+  /\ More /\ Ev.ev = "Regen"
+  /\ l' = l + 1
+  /\ Chk("C15", "RegenerationSucceeds", Ev.status = "ok")
+  /\ Chk("C15", "RegeneratedStructMatches", Ev.status = "ok" => Ev.regen = Regen(Ev.orig))
+  /\ UNCHANGED <<caseId, schema, cols, maxPage, codecN, recs, batches, snk, wc, faultK, rowsTab, clean>>
+\* C14: the decorated program's file is byte-identical to the plain program's
+TPair ==
+  /\ More /\ Ev.ev = "Pair"
+  /\ l' = l + 1
+  /\ Chk("C14", "DecoratedProgramBuilds", Ev.status = "ok")
+  /\ Chk("C14", "EffectiveSchemaUnchanged", Ev.status = "ok" => Ev.decoschema = Ev.baseschema)
+  /\ Chk("C14", "ByteIdenticalFiles", Ev.status = "ok" => Ev.same)
+  /\ UNCHANGED <<caseId, schema, cols, maxPage, codecN, recs, batches, snk, wc, faultK, rowsTab, clean>>
 
 TRows ==
   /\ More /\ Ev.ev = "Rows"
   /\ l' = l + 1
   /\ Chk("HARNESS", "RowsIdsInOrder", Ev.id = Len(rowsTab) + 1)
   /\ rowsTab' = Append(rowsTab, Ev.rows)
-  /\ UNCHANGED <<caseId, schema, cols, maxPage, codecN, recs, batches, snk, wc, faultK>>
+  /\ UNCHANGED <<caseId, schema, cols, maxPage, codecN, recs, batches, snk, wc, faultK, clean>>
 
 \* ---------------------------------------------------------------- sink faults (C09)
 TSinkRun ==
   /\ More /\ Ev.ev = "SinkRun"
   /\ faultK' = Ev.k /\ l' = l + 1
-  /\ UNCHANGED <<caseId, schema, cols, maxPage, codecN, recs, batches, snk, wc, rowsTab>>
+  /\ UNCHANGED <<caseId, schema, cols, maxPage, codecN, recs, batches, snk, wc, rowsTab, clean>>
 
 TSinkCall ==
   /\ More /\ Ev.ev = "SinkCall"
   /\ l' = l + 1
   /\ Chk("C09", "NoPanic", Ev.res # "panic")
   /\ Chk("C09", "FaultReported", Ev.hit => Ev.res = "err")
-  /\ UNCHANGED <<caseId, schema, cols, maxPage, codecN, recs, batches, snk, wc, faultK, rowsTab>>
+  /\ UNCHANGED <<caseId, schema, cols, maxPage, codecN, recs, batches, snk, wc, faultK, rowsTab, clean>>
 
 \* ---------------------------------------------------------------- other lines
 TOther ==
-  /\ More /\ Ev.ev \notin {"Reset", "New", "Add", "Write", "Close", "Read", "Rows", "Foreign", "Intro", "Sched", "Stress", "SinkRun", "SinkCall"}
+  /\ More /\ Ev.ev \notin {"Reset", "New", "Add", "Write", "Close", "Read", "Rows", "Foreign", "Expect", "Regen", "Pair", "Intro", "Sched", "Stress", "SinkRun", "SinkCall"}
   /\ l' = l + 1
   /\ Chk("HARNESS", "DriverPanic", Ev.ev # "DriverPanic")
-  /\ UNCHANGED <<caseId, schema, cols, maxPage, codecN, recs, batches, snk, wc, faultK, rowsTab>>
+  /\ UNCHANGED <<caseId, schema, cols, maxPage, codecN, recs, batches, snk, wc, faultK, rowsTab, clean>>
 
 TDone == /\ l = Len(Trace) + 1 /\ PrintT(<<"TRACEDONE", Len(Trace)>>) /\ UNCHANGED vars
 
-Next == TReset \/ TNew \/ TAdd \/ TWrite \/ TClose \/ TRead \/ TRows \/ TForeign \/ TIntro \/ TSched \/ TStress \/ TSinkRun \/ TSinkCall \/ TOther \/ TDone
+Next == TReset \/ TNew \/ TAdd \/ TWrite \/ TClose \/ TRead \/ TRows \/ TForeign \/ TExpect \/ TRegen \/ TPair \/ TIntro \/ TSched \/ TStress \/ TSinkRun \/ TSinkCall \/ TOther \/ TDone
 Spec == Init /\ [][Next]_vars
 
 \* every line was consumed: one state per line plus the initial state
